@@ -32,6 +32,30 @@ type FaultStore struct {
 	Commits    int
 	Failed     int
 	park       chan struct{} // non-nil: Puts block until it is closed
+	holdQ      chan struct{} // non-nil: Queries block until it is closed
+	HeldQ      int           // queries that had to wait
+}
+
+// HoldQueries makes every Query block (on=true) until HoldQueries(false):
+// go-ds-crdt's first access when it starts is a query for its heads, so this
+// holds a starting replica between "subscribed to the topic" and "running".
+func (f *FaultStore) HoldQueries(on bool) {
+	f.mu.Lock()
+	defer f.mu.Unlock()
+	if on && f.holdQ == nil {
+		f.holdQ = make(chan struct{})
+	}
+	if !on && f.holdQ != nil {
+		close(f.holdQ)
+		f.holdQ = nil
+	}
+}
+
+// QueriesHeld tells how many queries have been made to wait so far.
+func (f *FaultStore) QueriesHeld() int {
+	f.mu.Lock()
+	defer f.mu.Unlock()
+	return f.HeldQ
 }
 
 // Park makes every Put block (on=true) until Park(false) is called.
@@ -102,7 +126,18 @@ func (f *FaultStore) Batch() (ds.Batch, error) {
 }
 
 // Query passes through (explicit so the embedded interface is not shadowed).
-func (f *FaultStore) Query(q dsq.Query) (dsq.Results, error) { return f.Datastore.Query(q) }
+func (f *FaultStore) Query(q dsq.Query) (dsq.Results, error) {
+	f.mu.Lock()
+	ch := f.holdQ
+	if ch != nil {
+		f.HeldQ++
+	}
+	f.mu.Unlock()
+	if ch != nil {
+		<-ch
+	}
+	return f.Datastore.Query(q)
+}
 
 // MonSvc answers PeerMonitor.LatestMetrics for crdt's Peers().
 type MonSvc struct{ PeersF func() []peer.ID }
